@@ -564,6 +564,16 @@ func (w *respWriter) Write(b []byte) (int, error) {
 	return len(b), nil
 }
 
+// WriteString and Flush: net/http's ResponseWriter implements io.StringWriter and
+// http.Flusher, and wrappers in generated code may look for them.
+func (w *respWriter) WriteString(s string) (int, error) { return w.Write([]byte(s)) }
+
+func (w *respWriter) Flush() {
+	if !w.wrote {
+		w.WriteHeader(http.StatusOK)
+	}
+}
+
 func (w *respWriter) frame() []byte {
 	if !w.wrote {
 		w.WriteHeader(200)
